@@ -462,6 +462,22 @@ func genAction(t *rapid.T, h Header) Action {
 	switch a.K {
 	case "open", "fsstat", "fsreaddir":
 		a.Name = rapid.SampledFrom(all).Draw(t, "name")
+		if rapid.IntRange(0, 7).Draw(t, "misspelt") == 0 {
+			// an invalid spelling of a name the source serves: the cache must answer exactly as the source does (refuse it),
+			// also after the clean spelling has been served and remembered
+			switch rapid.IntRange(0, 4).Draw(t, "spelling") {
+			case 0:
+				a.Name = "./" + a.Name
+			case 1:
+				a.Name += "/"
+			case 2:
+				a.Name = strings.Replace(a.Name, "/", "//", 1)
+			case 3:
+				a.Name = "x/../" + a.Name
+			default:
+				a.Name = strings.Replace(a.Name, "/", "/./", 1)
+			}
+		}
 	case "read":
 		a.N = rapid.SampledFrom([]int{0, 1, 7, 100, 511, 512, 513, 600, 2000, 6000}).Draw(t, "n")
 	case "seek":
